@@ -87,7 +87,9 @@ def ops_for(rng, d, path, comments, depth):
     else:
         L.append('set%s 0 %s %s' % (d.typ, hp, sval(rng, d.typ)))
     if comments and rng.random() < 0.3:
-        c = rand_bytes(rng, printable=True).replace('*/', '* /').replace('\n', ' ').strip() or 'note'
+        c = rand_bytes(rng, printable=True).strip() or 'note'
+        if rng.random() < 0.15:
+            c = rng.choice(['a */ b', '*/', 'x*/', '*/ y', 'see /* and */ here', 'two\nlines', 'star */\nand newline', '**/', '/*/'])
         L.append('setcomment 0 %s %s' % (hp, hx(c)))
     return L
 
